@@ -433,3 +433,372 @@ Proof.
       destruct (a_zero _ AI _ _ Hin Hz) as (tau & Ht & Hl).
       exists tau. split; [simpl in Ht; lia|exact Hl].
 Qed.
+
+(* ================================================================ completeness of c01_ok
+   For well-formed traces (WGSpec.trace_wf) the converse holds: if the sentence c01_spec is
+   true of t then the monitor accepts t.  Needs the converses of the annotations: a watch
+   without a returned channel belongs to the Wait call its thread is still inside; a watch
+   whose zero_seen flag is unset has seen lb > 0 at every position since its call; a watch
+   carrying channel x belongs to a completed call that returned x.                           *)
+Definition since (t : trace) (tid s : nat) : Prop :=
+  forall k it, (s < k < length t)%nat -> item_at t k = Some it -> it_tid it = tid ->
+               it_ev it = ETau.
+
+Record aws_inv2 (t : trace) : Prop := {
+  b_none : forall s w, In (s, w) (aws_of t) -> w_ch w = None ->
+             in_call t (w_tid w) = Some CWait /\ since t (w_tid w) s;
+  b_zero : forall s w, In (s, w) (aws_of t) -> w_zero w = false ->
+             forall tau, (s <= tau < length t)%nat -> 0 < lb_of (prefix_upto t tau);
+  b_ret : forall s w x, In (s, w) (aws_of t) -> w_ch w = Some x ->
+            exists r, wait_call t s r (w_tid w) x
+}.
+
+Lemma since_cons : forall it t tid s, (s < length t)%nat -> since t tid s ->
+  (it_tid it = tid -> it_ev it = ETau) -> since (it :: t) tid s.
+Proof.
+  intros it t tid s Hs Hsince Hit k it0 Hk Hitem Htid. simpl in Hk.
+  destruct (Nat.lt_ge_cases k (length t)) as [L|L].
+  - rewrite item_at_old in Hitem; auto. eapply Hsince; eauto. lia.
+  - assert (k = length t) by lia. subst k. rewrite item_at_new in Hitem. inversion Hitem; subst it0.
+    auto.
+Qed.
+
+Lemma wait_call_cons : forall it t s r tid x, wait_call t s r tid x -> wait_call (it :: t) s r tid x.
+Proof.
+  intros it t s r tid x (Hsr & (o & p & Hs) & (o' & p' & Hr) & Hmid).
+  pose proof (item_at_lt _ _ _ Hr) as Hlt.
+  split; [exact Hsr|]. split; [|split].
+  - exists o, p. rewrite item_at_old; [exact Hs|lia].
+  - exists o', p'. rewrite item_at_old; [exact Hr|lia].
+  - intros k it0 Hk Hit Ht. apply (Hmid k it0 Hk); auto. rewrite item_at_old in Hit; [exact Hit|lia].
+Qed.
+
+Lemma in_call_cons : forall (it : witem) t tid,
+  in_call (it :: t) tid =
+  if Nat.eqb (it_tid it) tid then
+    match it_ev it with ECall c => Some c | ERet _ _ => None | _ => in_call t tid end
+  else in_call t tid.
+Proof. reflexivity. Qed.
+
+Lemma sorted_tail_lt : forall (p : awatch) r, StronglySorted gt (starts (p :: r)) ->
+  forall q, In q r -> (fst q < fst p)%nat.
+Proof.
+  intros p r H q Hq. simpl in H. apply StronglySorted_inv in H. destruct H as [_ H].
+  rewrite Forall_forall in H. apply H. unfold starts. apply in_map. exact Hq.
+Qed.
+
+(* after a return of tid no watch of tid is left without a channel, provided all such watches
+   had the same start before *)
+Lemma aset_ret_clears : forall tid x ws,
+  StronglySorted gt (starts ws) ->
+  (forall p q, In p ws -> In q ws -> w_tid (snd p) = tid -> w_ch (snd p) = None ->
+               w_tid (snd q) = tid -> w_ch (snd q) = None -> fst p = fst q) ->
+  forall p, In p (aset_ret tid x ws) -> w_tid (snd p) = tid -> w_ch (snd p) = None -> False.
+Proof.
+  induction ws as [|q r IH]; intros Hs Hu p Hp Ht Hc; simpl in Hp; [destruct Hp|].
+  assert (Hs' : StronglySorted gt (starts r)).
+  { simpl in Hs. apply StronglySorted_inv in Hs. tauto. }
+  assert (Hu' : forall p q, In p r -> In q r -> w_tid (snd p) = tid -> w_ch (snd p) = None ->
+                            w_tid (snd q) = tid -> w_ch (snd q) = None -> fst p = fst q).
+  { intros a b Ha Hb. apply Hu; right; auto. }
+  destruct (w_ch (snd q)) eqn:Eq.
+  - destruct Hp as [<-|Hp]; [congruence|]. eapply IH; eauto.
+  - destruct (Nat.eqb_spec (w_tid (snd q)) tid) as [Et|Nt].
+    + destruct Hp as [<-|Hp]; [discriminate Hc|].
+      pose proof (sorted_tail_lt _ _ Hs _ Hp) as Hlt.
+      assert (fst q = fst p). { apply Hu; auto; [left; auto|right; auto]. }
+      lia.
+    + destruct Hp as [<-|Hp]; [congruence|]. eapply IH; eauto.
+Qed.
+
+Lemma aws_inv2_all : forall t, trace_wf t = true -> aws_inv2 t.
+Proof.
+  induction t as [|it t IH]; intros Hwf.
+  - constructor; cbn; intros; contradiction.
+  - cbn [trace_wf] in Hwf. apply andb_true_iff in Hwf. destruct Hwf as [Hwf Hhead].
+    specialize (IH Hwf). pose proof (aws_inv_all t) as AI. pose proof (aws_inv_all (it :: t)) as AI'.
+    set (z := lb_of (it :: t) <=? 0).
+    set (A1 := map (amark z) (aws_of t)).
+    assert (HA1 : forall s w, In (s, w) A1 -> exists w0, In (s, w0) (aws_of t) /\ w = mark z w0).
+    { intros s w H. apply in_map_iff in H. destruct H as ([s0 w0] & E & Hin).
+      unfold amark in E. simpl in E. inversion E; subst. eauto. }
+    (* uniqueness of the open watch of a thread *)
+    assert (Huniq : forall p q, In p A1 -> In q A1 ->
+              forall tid, w_tid (snd p) = tid -> w_ch (snd p) = None ->
+              w_tid (snd q) = tid -> w_ch (snd q) = None -> fst p = fst q).
+    { intros [s1 w1] [s2 w2] H1 H2 tid T1 C1 T2 C2. simpl in *.
+      destruct (HA1 _ _ H1) as (u1 & I1 & ->). destruct (HA1 _ _ H2) as (u2 & I2 & ->).
+      simpl in *.
+      destruct (b_none _ IH _ _ I1 C1) as (_ & S1). destruct (b_none _ IH _ _ I2 C2) as (_ & S2).
+      destruct (a_start _ AI _ _ I1) as (L1 & i1 & E1 & F1 & G1).
+      destruct (a_start _ AI _ _ I2) as (L2 & i2 & E2 & F2 & G2).
+      destruct (Nat.lt_trichotomy s1 s2) as [Hlt|[Heq|Hgt]]; auto; exfalso.
+      - assert (it_ev i2 = ETau) by (apply (S1 s2 i2); [lia|exact E2|congruence]). congruence.
+      - assert (it_ev i1 = ETau) by (apply (S2 s1 i1); [lia|exact E1|congruence]). congruence. }
+    (* the three clauses for entries that come unchanged from A1 *)
+    assert (Hzero1 : forall s w, In (s, w) A1 -> w_zero w = false ->
+              forall tau, (s <= tau < length (it :: t))%nat -> 0 < lb_of (prefix_upto (it :: t) tau)).
+    { intros s w H Hz tau Htau. destruct (HA1 _ _ H) as (w0 & Hin & ->). simpl in Hz.
+      apply orb_false_iff in Hz. destruct Hz as [Hz0 Hzz].
+      rewrite prefix_upto_cons. destruct (Nat.ltb_spec tau (length t)) as [L|L].
+      - eapply (b_zero _ IH); eauto. lia.
+      - unfold z in Hzz. apply Z.leb_gt in Hzz. exact Hzz. }
+    assert (Hret1 : forall s w x, In (s, w) A1 -> w_ch w = Some x ->
+              exists r, wait_call (it :: t) s r (w_tid w) x).
+    { intros s w x H Hc. destruct (HA1 _ _ H) as (w0 & Hin & ->). simpl in Hc.
+      destruct (b_ret _ IH _ _ _ Hin Hc) as (r & Hr). exists r. apply wait_call_cons. exact Hr. }
+    assert (Hnone1 : forall s w, In (s, w) A1 -> w_ch w = None ->
+              (it_tid it = w_tid w -> it_ev it = ETau) ->
+              in_call (it :: t) (w_tid w) = Some CWait /\ since (it :: t) (w_tid w) s).
+    { intros s w H Hc Hev. destruct (HA1 _ _ H) as (w0 & Hin & ->). simpl in Hc, Hev.
+      unfold mark; cbn [w_tid].
+      destruct (b_none _ IH _ _ Hin Hc) as (Hic & Hsi).
+      destruct (a_start _ AI _ _ Hin) as (Ls & _).
+      split.
+      - rewrite in_call_cons. destruct (Nat.eqb_spec (it_tid it) (w_tid w0)) as [E|N]; auto.
+        rewrite (Hev E). exact Hic.
+      - apply since_cons; auto. }
+    (* what well-formedness says about the new item when its thread has an open watch *)
+    assert (Hwf_open : forall s w, In (s, w) A1 -> w_ch w = None -> it_tid it = w_tid w ->
+              it_ev it = ETau \/ exists x, it_ev it = ERet CWait (RChan x)).
+    { intros s w H Hc Ht. destruct (HA1 _ _ H) as (w0 & Hin & ->). simpl in Hc, Ht.
+      destruct (b_none _ IH _ _ Hin Hc) as (Hic & _). rewrite Ht, Hic in Hhead.
+      destruct (it_ev it) as [c|c r| |]; try discriminate; auto.
+      apply andb_true_iff in Hhead. destruct Hhead as [Hs Hm].
+      destruct c; try discriminate. destruct r; try discriminate. eauto. }
+    destruct (it_ev it) as [c|c r| |] eqn:Ev.
+    + (* call *)
+      assert (Hcases : aws_of (it :: t) = A1 \/
+                       (c = CWait /\ aws_of (it :: t) = (length t, Watch (it_tid it) None z) :: A1)).
+      { cbn [aws_of]. rewrite Ev. destruct c; auto. }
+      assert (Hold : forall s w, In (s, w) A1 -> w_ch w = None -> it_tid it <> w_tid w).
+      { intros s w H Hc Ht. destruct (Hwf_open _ _ H Hc Ht) as [E|(x & E)]; discriminate E. }
+      destruct Hcases as [HA|(-> & HA)]; constructor; rewrite HA.
+      * intros s w H Hc. apply Hnone1; auto. intro E. exfalso. eapply Hold; eauto.
+      * exact Hzero1.
+      * exact Hret1.
+      * intros s w [E|H] Hc.
+        -- inversion E; subst. cbn [w_tid]. split.
+           ++ rewrite in_call_cons, Nat.eqb_refl, Ev. reflexivity.
+           ++ intros k it0 Hk. simpl in Hk. lia.
+        -- apply Hnone1; auto. intro E. exfalso. eapply Hold; eauto.
+      * intros s w [E|H] Hz; [|eauto]. inversion E; subst. cbn [w_zero] in Hz.
+        intros tau Htau. simpl in Htau. assert (tau = length t) by lia. subst tau.
+        rewrite prefix_upto_cons, Nat.ltb_irrefl. unfold z in Hz. apply Z.leb_gt in Hz. exact Hz.
+      * intros s w x [E|H] Hc; [|eauto]. inversion E; subst. discriminate Hc.
+    + (* return *)
+      destruct (match c, r with CWait, RChan x => Some x | _, _ => None end) as [x|] eqn:Ewr.
+      * (* a Wait returning channel x *)
+        assert (c = CWait /\ r = RChan x) as [-> ->].
+        { destruct c; try discriminate. destruct r; try discriminate. inversion Ewr. auto. }
+        assert (HA : aws_of (it :: t) = aset_ret (it_tid it) x A1).
+        { cbn [aws_of]. rewrite Ev. reflexivity. }
+        assert (Hsorted1 : StronglySorted gt (starts A1)).
+        { unfold A1. rewrite starts_amark. exact (a_sorted _ AI). }
+        constructor; rewrite HA.
+        -- intros s w H Hc.
+           destruct (in_aset_ret _ _ _ _ H) as [H1|(w0 & H1 & H2 & H3 & H4)].
+           ++ simpl in H1. apply Hnone1; auto. intro E. exfalso.
+              refine (aset_ret_clears (it_tid it) x A1 Hsorted1 _ (s, w) H _ Hc);
+                [intros p q Hp Hq T1 C1 T2 C2; eapply Huniq; eauto|simpl; auto].
+           ++ simpl in H4. rewrite H4 in Hc. discriminate Hc.
+        -- intros s w H Hz. destruct (in_aset_ret _ _ _ _ H) as [H1|(w0 & H1 & H2 & H3 & H4)].
+           ++ eapply Hzero1; eauto.
+           ++ simpl in H1, H4. subst w. cbn [w_zero] in Hz. eapply Hzero1; eauto.
+        -- intros s w y H Hc. destruct (in_aset_ret _ _ _ _ H) as [H1|(w0 & H1 & H2 & H3 & H4)].
+           ++ eapply Hret1; eauto.
+           ++ simpl in H1, H4. subst w. cbn in Hc. inversion Hc; subst y. cbn [w_tid].
+              exists (length t).
+              destruct (HA1 _ _ H1) as (w00 & Hin0 & Ew). subst w0. simpl in H2, H3.
+              destruct (a_start _ AI _ _ Hin0) as (Ls & i0 & E0 & F0 & G0).
+              destruct (b_none _ IH _ _ Hin0 H2) as (_ & Hsi).
+              split; [exact Ls|]. split; [|split].
+              ** destruct i0 as [t0 e0 o0 p0]. simpl in F0, G0. subst. exists o0, p0.
+                 rewrite item_at_old; auto. rewrite <- H3. exact E0.
+              ** destruct it as [t1 e1 o1 p1]. simpl in Ev. subst e1. exists o1, p1.
+                 rewrite item_at_new. reflexivity.
+              ** intros k it0 Hk Hit Ht. rewrite item_at_old in Hit; [|lia].
+                 apply (Hsi k it0); auto. congruence.
+      * (* any other return *)
+        assert (HA : aws_of (it :: t) = A1).
+        { cbn [aws_of]. rewrite Ev. destruct c; auto. destruct r; auto. discriminate Ewr. }
+        assert (Hold : forall s w, In (s, w) A1 -> w_ch w = None -> it_tid it <> w_tid w).
+        { intros s w H Hc Ht. destruct (Hwf_open _ _ H Hc Ht) as [E|(y & E)]; [discriminate E|].
+          inversion E; subst. discriminate Ewr. }
+        constructor; rewrite HA.
+        -- intros s w H Hc. apply Hnone1; auto. intro E. exfalso. eapply Hold; eauto.
+        -- exact Hzero1.
+        -- exact Hret1.
+    + (* internal step *)
+      assert (HA : aws_of (it :: t) = A1) by (cbn [aws_of]; rewrite Ev; reflexivity).
+      constructor; rewrite HA.
+      * intros s w H Hc. apply Hnone1; auto.
+      * exact Hzero1.
+      * exact Hret1.
+    + (* stutter *)
+      assert (HA : aws_of (it :: t) = A1) by (cbn [aws_of]; rewrite Ev; reflexivity).
+      assert (Hold : forall s w, In (s, w) A1 -> w_ch w = None -> it_tid it <> w_tid w).
+      { intros s w H Hc Ht. destruct (Hwf_open _ _ H Hc Ht) as [E|(y & E)]; discriminate E. }
+      constructor; rewrite HA.
+      * intros s w H Hc. apply Hnone1; auto. intro E. exfalso. eapply Hold; eauto.
+      * exact Hzero1.
+      * exact Hret1.
+Qed.
+
+(* the sentence restricted to the older part of the trace *)
+Lemma c01_spec_older : forall it t, c01_spec (it :: t) -> c01_spec t.
+Proof.
+  intros it t H s r tid x u it0 Hw Hru Hu Hx.
+  pose proof (item_at_lt _ _ _ Hu) as Hlt.
+  destruct (H s r tid x u it0) as (tau & Ht & Hl); auto.
+  - apply wait_call_cons. exact Hw.
+  - rewrite item_at_old; auto.
+  - exists tau. split; auto. rewrite prefix_upto_cons in Hl.
+    destruct (Nat.ltb_spec tau (length t)); [exact Hl|lia].
+Qed.
+
+Theorem c01_spec_ok : forall t, trace_wf t = true -> c01_spec t -> c01_ok t = true.
+Proof.
+  unfold c01_ok. induction t as [|it t IH]; intros Hwf Hspec; [reflexivity|].
+  assert (Hwf' : trace_wf t = true).
+  { cbn [trace_wf] in Hwf. apply andb_true_iff in Hwf. tauto. }
+  pose proof (IH Hwf' (c01_spec_older _ _ Hspec)) as Hok.
+  cbn [mon_of]. unfold mon_step. cbn [m_ok]. rewrite Hok. cbn [andb].
+  apply forallb_forall. intros w Hin. unfold watch_ok.
+  destruct (w_ch w) as [x|] eqn:Ec; auto.
+  destruct (memb x (snd (it_obs it))) eqn:M; auto. cbn [implb].
+  destruct (w_zero w) eqn:Ez; auto. exfalso.
+  (* w is a watch of the monitor after it: find its annotation *)
+  change (In w (m_ws (mon_of (it :: t)))) in Hin. rewrite <- aws_erase in Hin.
+  apply in_map_iff in Hin. destruct Hin as ([s w'] & E & Hin). simpl in E. subst w'.
+  pose proof (aws_inv2_all (it :: t) Hwf) as BI.
+  destruct (b_ret _ BI _ _ _ Hin Ec) as (r & Hw).
+  assert (Hx : In x (snd (it_obs it))).
+  { unfold memb in M. apply existsb_exists in M. destruct M as (y & Hy & E). apply Nat.eqb_eq in E.
+    subst; auto. }
+  assert (Hr : (r <= length t)%nat).
+  { destruct Hw as (_ & _ & (o & p & H) & _). apply item_at_lt in H. simpl in H. lia. }
+  destruct (Hspec s r (w_tid w) x (length t) it Hw Hr (item_at_new it t) Hx) as (tau & Ht & Hl).
+  pose proof (b_zero _ BI _ _ Hin Ez tau) as Hpos. simpl in Hpos. specialize (Hpos ltac:(lia)). lia.
+Qed.
+
+Theorem c01_ok_iff_spec : forall t, trace_wf t = true -> (c01_ok t = true <-> c01_spec t).
+Proof. intros t H. split; [apply c01_ok_spec|apply c01_spec_ok; exact H]. Qed.
+
+(* ================================================================ what c02_ok means
+   c02_ok t = true -> c02_spec t, for every trace.                                           *)
+Lemma q_ok_unfold : forall (it : witem) t,
+  q_ok (mon2_of (it :: t)) =
+  (q_ok (mon2_of t)
+   && match it_ev it with ERet _ RPanic => false | _ => true end
+   && implb (is_nil (adds_in_flight (it :: t))) (Z.eqb (fst (it_obs it)) (sum_deltas (it :: t)))
+   && implb (is_nil (adds_in_flight (it :: t)) && Z.eqb (sum_deltas (it :: t)) 0)
+            (forallb (fun x => memb x (snd (it_obs it))) (handed_out (it :: t)))
+   && match it_ev it with
+      | ERet CWait (RChan x) =>
+          implb (is_nil (adds_in_flight (it :: t)) && (0 <? sum_deltas (it :: t)))
+                (negb (memb x (snd (it_obs it))))
+      | _ => true
+      end
+   && forallb (fun p => Nat.ltb (snd p) K_WAIT) (q_waits (mon2_of (it :: t))))%bool.
+Proof. intros. reflexivity. Qed.
+
+Definition waits_after (tid : nat) (e : ev) (rest_before : bool) (ws : list (nat * nat))
+  : list (nat * nat) :=
+  let waits0 := map (fun p => if Nat.eqb (fst p) tid && rest_before
+                              then (fst p, S (snd p)) else (fst p, O)) ws in
+  match e with
+  | ECall CWait => (tid, O) :: waits0
+  | ERet CWait _ => filter (fun p => negb (Nat.eqb (fst p) tid)) waits0
+  | _ => waits0
+  end.
+
+Lemma q_waits_unfold : forall (it : witem) t,
+  q_waits (mon2_of (it :: t))
+  = waits_after (it_tid it) (it_ev it) (is_nil (adds_in_flight t)) (q_waits (mon2_of t)).
+Proof. intros. reflexivity. Qed.
+
+Lemma at_rest_is_nil : forall p, at_rest p <-> is_nil (adds_in_flight p) = true.
+Proof.
+  intro p. unfold at_rest. destruct (adds_in_flight p); simpl; split; intro H; auto; discriminate.
+Qed.
+
+(* a thread inside Wait has an entry whose counter bounds its run of solo steps at rest *)
+Lemma waits_bound : forall t tid, in_call t tid = Some CWait ->
+  exists n, In (tid, n) (q_waits (mon2_of t)) /\ forall k, solo_rest t tid k -> (k <= n)%nat.
+Proof.
+  induction t as [|it t IH]; intros tid Hin; [discriminate Hin|].
+  rewrite q_waits_unfold. rewrite in_call_cons in Hin.
+  set (f := fun p : nat * nat =>
+              if Nat.eqb (fst p) (it_tid it) && is_nil (adds_in_flight t)
+              then (fst p, S (snd p)) else (fst p, O)).
+  destruct (Nat.eqb_spec (it_tid it) tid) as [Et|Nt].
+  - (* an item of the thread itself *)
+    destruct (it_ev it) as [c|c r| |] eqn:Ev; try discriminate Hin.
+    + inversion Hin; subst c. exists O. unfold waits_after. rewrite Et. split; [left; reflexivity|].
+      intros [|k] Hk; [lia|]. simpl in Hk. destruct Hk as (_ & E & _). congruence.
+    + destruct (IH tid Hin) as (n & Hn & Hb).
+      destruct (is_nil (adds_in_flight t)) eqn:R.
+      * exists (S n). unfold waits_after. split.
+        -- apply in_map_iff. exists (tid, n). split; auto. simpl. rewrite Et, Nat.eqb_refl. reflexivity.
+        -- intros [|k] Hk; [lia|]. simpl in Hk. destruct Hk as (_ & _ & _ & Hk). specialize (Hb _ Hk). lia.
+      * exists O. unfold waits_after. split.
+        -- apply in_map_iff. exists (tid, n). split; auto. simpl. rewrite andb_false_r. reflexivity.
+        -- intros [|k] Hk; [lia|]. simpl in Hk. destruct Hk as (_ & _ & Hr & _).
+           apply at_rest_is_nil in Hr. congruence.
+    + destruct (IH tid Hin) as (n & Hn & Hb).
+      exists (snd (f (tid, n))). unfold waits_after. split.
+      * apply in_map_iff. exists (tid, n). split; auto. unfold f. simpl.
+        destruct (Nat.eqb tid (it_tid it) && is_nil (adds_in_flight t)); reflexivity.
+      * intros [|k] Hk; [lia|]. simpl in Hk. destruct Hk as (_ & E & _). congruence.
+  - (* an item of another thread *)
+    destruct (IH tid Hin) as (n & Hn & _). exists O. split.
+    + assert (H0 : In (tid, O) (map f (q_waits (mon2_of t)))).
+      { apply in_map_iff. exists (tid, n). split; auto. unfold f. simpl.
+        destruct (Nat.eqb_spec tid (it_tid it)) as [E|_]; [congruence|]. reflexivity. }
+      unfold waits_after. fold f. destruct (it_ev it) as [c|c r| |]; auto.
+      * destruct c; auto. right; auto.
+      * destruct c; auto. apply filter_In. split; auto. simpl.
+        destruct (Nat.eqb_spec tid (it_tid it)) as [E|_]; [congruence|]. reflexivity.
+    + intros [|k] Hk; [lia|]. simpl in Hk. destruct Hk as (E & _). congruence.
+Qed.
+
+Lemma q_ok_older : forall it t, q_ok (mon2_of (it :: t)) = true -> q_ok (mon2_of t) = true.
+Proof.
+  intros it t H. rewrite q_ok_unfold in H. repeat (apply andb_true_iff in H; destruct H as [H ?]).
+  exact H.
+Qed.
+
+Theorem c02_ok_spec : forall t, c02_ok t = true -> c02_spec t.
+Proof.
+  unfold c02_ok. induction t as [|it t IH]; intros Hok u it0 Hu.
+  - unfold item_at in Hu. simpl in Hu. destruct u; discriminate Hu.
+  - destruct (Nat.lt_ge_cases u (length t)) as [L|L].
+    + rewrite item_at_old in Hu; auto. rewrite prefix_upto_cons.
+      destruct (Nat.ltb_spec u (length t)); [|lia]. apply (IH (q_ok_older _ _ Hok) u it0 Hu).
+    + pose proof (item_at_lt _ _ _ Hu) as Hlt. simpl in Hlt. assert (Eu : u = length t) by lia.
+      subst u. rewrite item_at_new in Hu. inversion Hu; subst it0.
+      rewrite prefix_upto_cons, Nat.ltb_irrefl. cbv zeta.
+      rewrite q_ok_unfold in Hok.
+      apply andb_true_iff in Hok. destruct Hok as [Hok Q4].
+      apply andb_true_iff in Hok. destruct Hok as [Hok Q3].
+      apply andb_true_iff in Hok. destruct Hok as [Hok Q2].
+      apply andb_true_iff in Hok. destruct Hok as [Hok Q1].
+      apply andb_true_iff in Hok. destruct Hok as [_ Qp].
+      split; [|split].
+      * intros c E. rewrite E in Qp. discriminate Qp.
+      * intro Hr. apply at_rest_is_nil in Hr. rewrite Hr in Q1, Q2, Q3. cbn [implb andb] in *.
+        split; [apply Z.eqb_eq; exact Q1|]. split.
+        -- intros Hz x Hx. apply Z.eqb_eq in Hz. rewrite Hz in Q2. cbn [implb] in Q2.
+           rewrite forallb_forall in Q2. specialize (Q2 _ Hx). unfold memb in Q2.
+           apply existsb_exists in Q2. destruct Q2 as (y & Hy & E). apply Nat.eqb_eq in E.
+           subst; auto.
+        -- intros x E Hpos Hx. rewrite E in Q3. apply Z.ltb_lt in Hpos. rewrite Hpos in Q3.
+           cbn [implb] in Q3. apply negb_true_iff in Q3. unfold memb in Q3.
+           assert (existsb (Nat.eqb x) (snd (it_obs it)) = true).
+           { apply existsb_exists. exists x. split; auto. apply Nat.eqb_refl. }
+           congruence.
+      * intros tid Hin Hsolo. destruct (waits_bound _ _ Hin) as (n & Hn & Hb).
+        rewrite forallb_forall in Q4. specialize (Q4 _ Hn). simpl in Q4. apply Nat.ltb_lt in Q4.
+        specialize (Hb _ Hsolo). lia.
+Qed.
